@@ -145,6 +145,58 @@ def a_autoAddExt(T):
     return translate_fn(spec, T, find)
 
 
+# ---------------------------------------------------------------- sow_combos / sow_cases: attribute updates, runner shuffle
+def _is_doc(st):
+    return isinstance(st, ast.Expr) and isinstance(st.value, ast.Constant)
+
+
+def _head_end(st):
+    """the head of sow_combos / sow_cases = the leading `if <arg> is not None: self.<attr> = <arg>` statements"""
+    return not (_is_doc(st) or isinstance(st, ast.If))
+
+
+_SOW_ENV = {
+    'batchsize': onum('batchsizeArg'), 'num_batches': onum('numBatchesArg'), 'shuffle': onum('shuffleArg'),
+    'self.batchsize': onum('batchsize'), 'self.num_batches': onum('numBatches'), 'self.shuffle': onum('shuffle'),
+}
+_SOW_RESULT = ['self.batchsize', 'self.num_batches', 'self.shuffle']
+
+
+def a_sowCombosHead(T):
+    return translate_fn(Spec('cropping', ['Crop', 'sow_combos'], _SOW_ENV, result=_SOW_RESULT, until=_head_end), T, find)
+
+
+def a_sowCasesHead(T):
+    env = {k: v for k, v in _SOW_ENV.items() if k != 'shuffle'}
+    return translate_fn(Spec('cropping', ['Crop', 'sow_cases'], env, result=_SOW_RESULT, until=_head_end), T, find)
+
+
+def _runner_shuffle(T, meth, callee, env):
+    """the `shuffle=` argument handed to the runner that drives the Sower (as an optional number)"""
+    from pyfn2lean import Tr2
+    f = find(T['cropping'], ['Crop', meth])
+    withs = [n for n in ast.walk(f) if isinstance(n, ast.With) and 'Sower(' in ast.unparse(n.items[0].context_expr)]
+    w = one(withs, 'with Sower(...)')
+    calls = [n for n in ast.walk(w) if isinstance(n, ast.Call) and ast.unparse(n.func) == callee]
+    c = one(calls, callee + ' call under the Sower')
+    kws = [k.value for k in c.keywords if k.arg == 'shuffle']
+    if not kws:
+        return '(some 0 : Option Int)'          # the runner's own default: no shuffle
+    t, ty = Tr2(env, 'Int').expr(one(kws, 'shuffle='))
+    if ty == 'onum': return t
+    if ty == 'num': return f'(some {t} : Option Int)'
+    if ty == 'bool': return f'(some (if {t} then 1 else 0) : Option Int)'
+    raise Untranslatable('runner shuffle of type ' + str(ty))
+
+
+def a_sowCombosRunnerShuffle(T):
+    return _runner_shuffle(T, 'sow_combos', 'combo_runner_core', {'shuffle': onum('shuffleArg'), 'self.shuffle': onum('selfShuffle')})
+
+
+def a_sowCasesRunnerShuffle(T):
+    return _runner_shuffle(T, 'sow_cases', 'case_runner', {'self.shuffle': onum('selfShuffle')})
+
+
 PYERR = 'Except PyErr'
 ANCHORS = [
     ('chooseBatchSettings',
@@ -155,6 +207,12 @@ ANCHORS = [
      '(files : List (Int × List α)) (kwargs : α) : ' f'{PYERR} (List α × Int × Int × List (Int × List α))', a_sowerCall),
     ('sowerExit', '{α : Type} (batchCases : List α) (counter batchCounter : Int) (files : List (Int × List α)) : '
      f'{PYERR} (List α × Int × Int × List (Int × List α))', a_sowerExit),
+    ('sowCombosHead', '(batchsizeArg numBatchesArg shuffleArg batchsize numBatches shuffle : Option Int) : '
+     f'{PYERR} (Option Int × Option Int × Option Int)', a_sowCombosHead),
+    ('sowCasesHead', '(batchsizeArg numBatchesArg batchsize numBatches shuffle : Option Int) : '
+     f'{PYERR} (Option Int × Option Int × Option Int)', a_sowCasesHead),
+    ('sowCombosRunnerShuffle', '(shuffleArg selfShuffle : Option Int) : Option Int', a_sowCombosRunnerShuffle),
+    ('sowCasesRunnerShuffle', '(selfShuffle : Option Int) : Option Int', a_sowCasesRunnerShuffle),
     ('calcCleanUp', '(cleanUp : Option Bool) (allowIncomplete : Bool) : ' f'{PYERR} (Option Bool × Bool)', a_calcCleanUp),
     ('checkReady', '(allowIncomplete wait isReady : Bool) : ' f'{PYERR} Unit', a_checkReady),
     ('reaperUseDefault', '(hasDefault wait isFile : Bool) : Bool', a_reaperUseDefault),
